@@ -8,7 +8,7 @@ and #42 applied (and the two printer defects found on the way: numeric ranges, r
 import SfntV.Proofs.DslLexer
 import SfntV.Proofs.DslRoundtrip
 import SfntV.Proofs.DslTotal
-import SfntV.Proofs.DslGpos4
+import SfntV.Proofs.DslAll
 
 namespace SfntV.Props.C19
 open SfntV SfntV.Dsl
@@ -511,6 +511,133 @@ break after the last record) — over both fonts. -/
 example :
     (∀ l ∈ univP4, rtOkP fontU [l] = true ∧ rtOkP fontN [l] = true) ∧
     rtOkP fontN (univP3.take 1 ++ univP4 ++ univP1.take 1) = true := by
+  decide +kernel
+
+/-! ## contextual and chained contextual lookups (GSUB 5/6, GPOS 7/8)
+
+Domain (`LookupCtxOk`, `LookupChainOk`): any flag set, at least one subtable, every subtable in one
+of the three formats —
+* format 1 (`Ctx1Ok`, `Chain1Ok`): rules grouped by their first glyph in ascending order, every
+  group non-empty (a covered glyph without a rule cannot be written), glyphs inside the font;
+* format 2 (`Ctx2Ok`, `Chain2Ok`): ascending coverage; class tables sorted by glyph in which the
+  classes 1 … k are all used (an empty class cannot be written); one rule list per class 0 … k
+  (exactly k + 1 lists) with at least one rule in total; class references ≤ k; in the chained form
+  the same for the three class tables (`backtrackclass`, `inputclass`, `lookaheadclass`);
+* format 3 (`Ctx3Ok`, `Chain3Ok`): at least one input set (backtrack and lookahead may be empty;
+  a set may be empty: `[]`), sets ascending and inside the font;
+nested actions `index@position` with both numbers below 65536 (positions are not checked against
+the input length by the parser, so none is required).  Glyphs may be called `class`, `inputclass`,
+`backtrackclass` or `lookaheadclass`: since repair 15 these are keywords only when a `:` follows,
+and the proofs use exactly that (an item of a glyph list is never followed by `:`). -/
+
+theorem C19_roundtrip_gsub5 (f : Font) (hf : FontOk f) (ls : List Lookup)
+    (h : ∀ l ∈ ls, LookupCtxOk f 5 l) : parseBytes f (explainGsub f ls) = .ok ls :=
+  roundtrip_gsub5 f hf ls h
+
+theorem C19_roundtrip_gsub6 (f : Font) (hf : FontOk f) (ls : List Lookup)
+    (h : ∀ l ∈ ls, LookupChainOk f 6 l) : parseBytes f (explainGsub f ls) = .ok ls :=
+  roundtrip_gsub6 f hf ls h
+
+theorem C19_roundtrip_gpos7 (f : Font) (hf : FontOk f) (ls : List Lookup)
+    (h : ∀ l ∈ ls, LookupCtxOk f 7 l) : parseBytes f (explainGpos f ls) = .ok ls :=
+  roundtrip_gpos7 f hf ls h
+
+theorem C19_roundtrip_gpos8 (f : Font) (hf : FontOk f) (ls : List Lookup)
+    (h : ∀ l ∈ ls, LookupChainOk f 8 l) : parseBytes f (explainGpos f ls) = .ok ls :=
+  roundtrip_gpos8 f hf ls h
+
+/-- Descriptions mixing lookups of ALL types in any order and number: GSUB 1–6 for `ExplainGsub`,
+GPOS 1–4, 7, 8 for `ExplainGpos` (`normalize`: a GSUB 1.2 table with constant offset comes back as
+1.1, all-zero value records as none). -/
+theorem C19_roundtrip_all_lists (f : Font) (hf : FontOk f) :
+    (∀ ls : List Lookup, (∀ l ∈ ls, GsubAllOk f l) → parseBytes f (explainGsub f ls) = .ok (normalize ls)) ∧
+    (∀ ls : List Lookup, (∀ l ∈ ls, GposAllOk f l) → parseBytes f (explainGpos f ls) = .ok (normalize ls)) :=
+  ⟨roundtrip_gsub_all f hf, roundtrip_gpos_all f hf⟩
+
+/-- a font whose glyphs 1–4 are called `class`, `inputclass`, `backtrackclass`, `lookaheadclass` -/
+def fontK : Font :=
+  { numGlyphs := 6, names := [[], kwClass, kwInputclass, kwBacktrackclass, kwLookaheadclass, [65]], cmap := [] }
+
+/-- it is in the domain, and lookups that start with these glyphs round-trip (kernel evaluation):
+`GSUB5: class A -> 1@0, inputclass -> ` and `GSUB6: inputclass | backtrackclass | lookaheadclass -> 2@0` -/
+example : FontOkB fontK = true ∧
+    rtOk fontK [{ typ := 5, flags := 0, subtables := [.ctx1 [(1, [⟨[5], [(1, 0)]⟩]), (2, [⟨[], []⟩])]] },
+      { typ := 6, flags := 0, subtables := [.chain1 [(3, [⟨[2], [], [4], [(2, 0)]⟩])], .chain1 [(1, [⟨[], [1], [], []⟩])]] }] = true := by
+  decide +kernel
+
+/-! the domain predicates of the six formats are inhabited (font `fontN`) -/
+
+example : CtxSub fontN (.ctx1 [(1, [⟨[2], [(1, 0)]⟩, ⟨[], []⟩]), (4, [⟨[1], [(0, 2)]⟩])]) := by
+  refine Or.inl ⟨_, rfl, ⟨by simp, by simp [Asc], ?_⟩⟩
+  intro p hp
+  simp at hp
+  rcases hp with rfl | rfl <;> refine ⟨by decide, by simp, ?_⟩ <;> intro r hr <;> simp at hr
+  · rcases hr with rfl | rfl <;> simp [ActOk, fontN]
+  · subst hr; simp [ActOk, fontN]
+
+example : CtxSub fontN (.ctx3 [[1, 2], [], [4]] [(1, 2)]) := by
+  refine Or.inr (Or.inr ⟨_, _, rfl, ⟨by simp, ?_, by simp [ActOk]⟩⟩)
+  intro s hs
+  simp at hs
+  rcases hs with rfl | rfl | rfl <;> simp [SetOk, Asc, fontN]
+
+theorem clsN : ClassOk fontN [(1, 1), (2, 2), (4, 1)] := by
+  refine ⟨by simp [Asc], by decide, ?_⟩
+  intro i hi
+  have : i = 0 ∨ i = 1 := by simp at hi; omega
+  rcases this with rfl | rfl <;> simp
+
+example : CtxSub fontN (.ctx2 [1, 2] [(1, 1), (2, 2), (4, 1)] [[⟨[1], [(3, 0)]⟩], [⟨[0, 2], []⟩], []]) := by
+  refine Or.inr (Or.inl ⟨_, _, _, rfl, ⟨by simp [Asc], by decide, clsN, by decide, by decide, by decide, ?_⟩⟩)
+  have hk : (classGlyphs [(1, 1), (2, 2), (4, 1)]).length = 2 := by decide
+  intro rs hrs r hr
+  rw [hk]
+  simp at hrs
+  rcases hrs with rfl | rfl | rfl <;> simp at hr
+  · subst hr; simp [ActOk]
+  · subst hr; simp
+
+example : ChainSub fontN (.chain1 [(1, [⟨[2, 4], [1], [], [(1, 0)]⟩, ⟨[], [], [2], []⟩])]) := by
+  refine Or.inl ⟨_, rfl, ⟨by simp, by simp [Asc], ?_⟩⟩
+  intro p hp
+  simp at hp
+  subst hp
+  refine ⟨by decide, by simp, ?_⟩
+  intro r hr
+  simp at hr
+  rcases hr with rfl | rfl <;> exact ⟨by simp [fontN], by simp [fontN], by simp [fontN], by simp [ActOk]⟩
+
+example : ChainSub fontN (.chain3 [[2], [1, 4]] [[1], [2]] [] [(1, 1), (2, 0)]) := by
+  refine Or.inr (Or.inr ⟨_, _, _, _, rfl, ⟨by simp, ?_, ?_, by simp, by simp [ActOk]⟩⟩)
+  · intro s hs; simp at hs; rcases hs with rfl | rfl <;> simp [SetOk, Asc, fontN]
+  · intro s hs; simp at hs; rcases hs with rfl | rfl <;> simp [SetOk, Asc, fontN]
+
+example : ChainSub fontN (.chain2 [1] [(1, 1), (2, 2), (4, 1)] [(1, 1), (2, 2), (4, 1)] [(1, 1), (2, 2), (4, 1)]
+    [[], [⟨[1, 0], [2], [1], [(1, 0)]⟩, ⟨[], [], [], []⟩], [⟨[], [0], [0, 2], [(2, 1)]⟩]]) := by
+  refine Or.inr (Or.inl ⟨_, _, _, _, _, rfl, ⟨by simp [Asc], by decide, clsN, clsN, clsN, by decide, by decide, by decide, ?_⟩⟩)
+  have hk : (classGlyphs [(1, 1), (2, 2), (4, 1)]).length = 2 := by decide
+  intro rs hrs r hr
+  rw [hk]
+  simp at hrs
+  rcases hrs with rfl | rfl | rfl <;> simp at hr
+  · rcases hr with rfl | rfl <;> simp [ActOk]
+  · subst hr; simp [ActOk]
+
+/-- concrete contextual lookups: all six formats, empty backtrack / lookahead, class 0, an empty
+set, rules without actions, several subtables -/
+def univCtx : List Lookup :=
+  [{ typ := 5, flags := 2, subtables := [.ctx1 [(1, [⟨[2], [(1, 0), (2, 1)]⟩, ⟨[], []⟩]), (4, [⟨[1, 1], [(0, 2)]⟩])]] },
+   { typ := 5, flags := 0, subtables := [.ctx2 [1, 2] [(1, 1), (2, 2), (4, 1)] [[⟨[1], [(3, 0)]⟩], [⟨[0, 2], []⟩], []],
+       .ctx3 [[1, 2], [], [4]] [(1, 2)], .ctx1 [(2, [⟨[], [(7, 0)]⟩])]] },
+   { typ := 6, flags := 9, subtables := [.chain1 [(1, [⟨[2, 4], [1], [], [(1, 0)]⟩, ⟨[], [], [2], []⟩])],
+       .chain3 [] [[1]] [] [(0, 0)], .chain3 [[2], [1, 4]] [[1], [2]] [[4]] [(1, 1), (2, 0)]] },
+   { typ := 6, flags := 0, subtables := [.chain2 [1] [(2, 1)] [(1, 1), (4, 2)] [(1, 1), (2, 1)]
+       [[], [⟨[1, 0], [2], [1], [(1, 0)]⟩, ⟨[], [], [], []⟩], [⟨[], [0], [0, 1], [(2, 1)]⟩]]] }]
+
+/-- kernel evaluation of the round trip on these lookups (GSUB 5/6), and on the same subtables as
+GPOS 7/8, over the font with names and cmap -/
+example : (∀ l ∈ univCtx, rtOk fontN [l] = true) ∧ rtOk fontN univCtx = true ∧
+    rtOkP fontN (univCtx.map fun l => { l with typ := l.typ + 2 }) = true := by
   decide +kernel
 
 /-! Non-vacuity: what the notation looks like, and that the checker can fail. -/
